@@ -321,9 +321,10 @@ def check_validate(v, facts, res):
                 g_res = True
             if n == "contains" and l.truth is False and _is_candidate(l.term[2][1]) and _parents_set(l.term[2][0], v, facts):
                 g_par = True
-            if l.truth is True and l.term[4] is not None and l.term[4].impl_adt == "revisiontree::RevisionTree" and \
-                    l.term[4].target() != v.path and len(l.term[2]) >= 2 and _is_candidate(l.term[2][1]):
-                if _reach_helper_ok(facts.body(l.term[4].target()), facts, res):
+            hb = facts.body(l.term[4].target()) if l.term[4] is not None else None
+            if l.truth is True and hb is not None and hb.in_repo() and hb.path != v.path and hb.local_ty(0) == "bool" and \
+                    hb.file == v.file and any(_is_candidate(a) for a in l.term[2]) and n not in ("is_resolved", "contains"):
+                if _reach_helper_ok(hb, facts, res):
                     g_valid = True
         res.instance("W1", "%s in %s: under !is_resolved(candidate)=%s, !parents.contains(candidate)=%s, root-reachable(candidate)=%s" % (
             what, v.path, g_res, g_par, g_valid), v.loc(line))
